@@ -113,3 +113,33 @@ def _write_verdicts(prog):
         if why:
             bad.append('%s: %s' % (where, why))
     return bad
+
+
+def zero_stride(prog):
+    """The reader folded for tags whose attribute block holds extreme values (Nbr, Nbw, Nmaxb of 0 or 255, with and without a message
+    that fits): None when every such tag is read or refused without an exception and a tag with Nbr = 0 is refused without a block
+    command, else what happens (a ValueError of range() with step 0 is the typical defect)."""
+    f = prog.func('nfc.tag.tt3.Type3Tag.NDEF._read_ndef_data')
+    for nbr in (0, 1, 255):
+        for nbw in (0, 1, 255):
+            for nmaxb in (0, 40, 255):
+                for ln in sorted(set((0, min(40, nmaxb * 16)))):
+                    cmds = []
+                    attrs = {'ver': 0x10, 'nbr': nbr, 'nbw': nbw, 'nmaxb': nmaxb, 'writef': 0, 'rwflag': 1, 'ln': ln}
+
+                    def read(*blocks):
+                        cmds.append(list(blocks))
+                        return bytearray(b''.join(_block(k) for k in blocks))
+                    env = {'self.tag.sys': 0x12FC, 'self._capacity': nmaxb * 16,
+                           '__calls__': {'self._read_attribute_data': lambda: dict(attrs), 'self.tag.read_from_ndef_service': read,
+                                         'self._tag.read_from_ndef_service': read}}
+                    where = 'Nbr %d, Nbw %d, Nmaxb %d, Ln %d' % (nbr, nbw, nmaxb, ln)
+                    try:
+                        r = fold_block(_body(f), env)
+                    except NotConst as e:
+                        return 'cannot fold (%s)' % e
+                    except (ValueError, ZeroDivisionError, IndexError, TypeError, KeyError) as e:
+                        return '%s: raises %s: %s' % (where, type(e).__name__, e)
+                    if nbr == 0 and (r != ('return', None) or cmds):
+                        return '%s: returns %r after %d block commands' % (where, r[1] if r[0] == 'return' else r, len(cmds))
+    return None
